@@ -215,6 +215,15 @@ class Reconstruction(_M):
         ok_bind = len(binds) == 1 and isinstance(binds[0].value, ast.Call) and isinstance(binds[0].value.func, ast.Name) \
             and binds[0].value.func.id == "Missing" and not binds[0].value.args
         st.check("P4:module-global-MISSING-is-bound-once-to-Missing()", z3.BoolVal(bool(ok_bind)), kind="frame")
+        # "rejects attribute access and modification": __getattr__/__setattr__/__delattr__ (clauses P2) only guard the ordinary
+        # routes; that *no* attribute can be attached (object.__setattr__, vars()) needs instances without storage of their
+        # own: an empty __slots__ in a class whose bases declare none either (T-SLOTS: such instances have no __dict__)
+        slots = [s for s in node.body if isinstance(s, ast.Assign)
+                 and any(isinstance(t, ast.Name) and t.id == "__slots__" for t in s.targets)]
+        empty = len(slots) == 1 and isinstance(slots[0].value, (ast.Tuple, ast.List)) and not slots[0].value.elts
+        st.check("P2:instances-have-no-storage-of-their-own(empty-__slots__,-no-bases):nothing-can-be-attached-to-MISSING",
+                 z3.BoolVal(bool(empty and not node.bases)), kind="frame",
+                 note="class Missing must declare `__slots__ = ()` and have no base class")
         route = st.fork("route", [("copy.copy", True), ("copy.deepcopy", True), ("pickle(protocol 0-5)", True)])
         rname = ["copy", "deepcopy", "pickle"][route]
         result = self.walk(it, info, S, rname)
